@@ -15,6 +15,8 @@ Lemma ob_sse_has_lflf : In (10, 10) sse_flush_patterns.
 Proof. vm_compute. tauto. Qed.
 Lemma ob_sse_has_crcr : In (13, 13) sse_flush_patterns.
 Proof. vm_compute. tauto. Qed.
+Lemma ob_sse_has_lfcr : In (10, 13) sse_flush_patterns.
+Proof. vm_compute. tauto. Qed.
 Lemma ob_sse_has_crlf : In (13, 10) sse_flush_patterns.
 Proof. vm_compute. tauto. Qed.
 Lemma ob_chunk_has_crlf : In (13, 10) chunk_flush_patterns.
